@@ -309,7 +309,16 @@ def run(ctx):
     pinned = [(e['hseed'], e['maxops']) for e in common.load_corpus('C11') if 'hseed' in e]
     for h in range(H):
         hseed, mo_ = pinned[h] if h < len(pinned) else (rng.randrange(1 << 30), maxops)
-        steps, problems, trace = run_history(ctx, hseed, mo_)
+        log = common.CtxLog(getattr(ctx, 'seed', 0))
+        kind, res = common.forked(lambda: (run_history(log, hseed, mo_), log.log), timeout=300)
+        if kind == 'exception':
+            raise RuntimeError('history raised in the child: %s' % res)
+        if kind != 'ok':
+            ctx.incon('history: solver %s' % kind)       # the real solve runs ECOS in-process; a crash costs this history only
+            continue
+        (steps, problems, trace), entries = res
+        log.log = entries
+        log.replay_into(ctx)
         for s in steps:
             s['hseed'] = hseed
         all_steps += steps
